@@ -226,6 +226,11 @@ class Scatterers(Scatterer):
             # multiple overlapping ones. You shouldn't really have
             # overlapping scatterers with different indicies, so this
             # shouldn't be a problem
-            return self.scatterers[self.in_domain(point)[0]].index_at(point)
+            domain = self.in_domain(point)[0]
+            # in_domain numbers the first scatterer 1, like the second one
+            if domain == 1 and (len(self.scatterers) == 1 or
+                                not self.scatterers[1].contains(point)[0]):
+                domain = 0
+            return self.scatterers[domain].index_at(point)
         except TypeError:
             return None
